@@ -215,6 +215,44 @@ def evalAuth (p : Pending) (glob : Oracle) (obsToks : List String) : String :=
   let head := s!"RES {p.prop} {p.id} eq={b eq} hm={b hm} hi={b hi} miss={b miss} crash={b (obsToks.contains "crash")}"
   if eq && hi && hm && !miss then head else head ++ " | " ++ showLog pm ++ " | " ++ showLog pi
 
+/-! language `copier` -/
+
+def evalCopier (p : Pending) (obsToks : List String) : String :=
+  let (cfg, evs) := p.toks.foldl (fun (acc : Copier.Cfg × List Copier.Ev) t =>
+    let (c, es) := acc
+    match fields t with
+    | ["src", x] => ({ c with src := unhex x }, es)
+    | ["seq"] => ({ c with seq := true }, es)
+    | ["block", n] => ({ c with block := toNat n }, es)
+    | ["range", f, t'] => ({ c with range := some (toInt f, toInt t') }, es)
+    | ["fail", "srcopen"] => ({ c with srcOpenFails := true }, es)
+    | ["fail", "dstopen"] => ({ c with dstOpenFails := true }, es)
+    | ["fail", "seek"] => ({ c with seekFails := true }, es)
+    | ["fail", "read", k] => ({ c with readFailAt := some (toNat k) }, es)
+    | ["fail", "write", k] => ({ c with writeFailAt := some (toNat k) }, es)
+    | ["start"] => (c, es ++ [.start])
+    | ["turn"] => (c, es ++ [.turn])
+    | ["stop"] => (c, es ++ [.stop])
+    | ["arrive", x] => (c, es ++ [.arrive (unhex x)])
+    | ["eof"] => (c, es ++ [.eof])
+    | _ => (c, es)) (({ src := [] } : Copier.Cfg), [])
+  let mlog := (Copier.run cfg evs).log
+  let ilog := (obsToks.filter (· != "end")).filterMap parseObs
+  let badTok := obsToks.filter (fun t => t != "end" && (parseObs t).isNone)
+  -- chunking of destination writes is not part of the property: merge adjacent ones
+  let mergeX (l : List Obs) : List Obs :=
+    l.foldr (fun o acc => match o, acc with
+      | .misc 1 a, .misc 1 c :: rest => .misc 1 (a ++ c) :: rest
+      | o, acc => o :: acc) []
+  let pm := mergeX mlog
+  let pi := mergeX ilog
+  let eq := pm == pi
+  let hm := C14.holds cfg evs mlog
+  let hi := C14.holds cfg evs ilog
+  let b (x : Bool) := if x then "1" else "0"
+  let head := s!"RES {p.prop} {p.id} eq={b eq} hm={b hm} hi={b hi} miss={b (!badTok.isEmpty)} crash={b (obsToks.contains "crash")}"
+  if eq && hi && hm && badTok.isEmpty then head else head ++ " | " ++ showLog pm ++ " | " ++ showLog pi
+
 partial def loop (h : IO.FS.Stream) (glob : Oracle) (cur : Pending) : IO Unit := do
   let line ← h.getLine
   if line.isEmpty then return ()
@@ -232,6 +270,7 @@ partial def loop (h : IO.FS.Stream) (glob : Oracle) (cur : Pending) : IO Unit :=
       | "range" => evalRange cur rest
       | "route" => evalRoute cur glob rest
       | "auth" => evalAuth cur glob rest
+      | "copier" => evalCopier cur rest
       | l => s!"RES {cur.prop} {cur.id} eq=0 hm=0 hi=0 miss=1 crash=0 | unknown language {l}"
     IO.println out
     loop h glob cur
